@@ -263,15 +263,20 @@ func (r *Run) eval(e *Env, x *SX) *Val {
 			return &Val{K: KPtr, Ty: types.NewPointer(et), P: p}
 		}
 		return r.load(e.st, p)
-	case "callresult", "called":
+	case "callresult", "called", "callarg":
 		// (callresult "callee" k i): i-th result of the k-th call of callee on this path; (called "callee" k)
 		k := "0"
 		if len(args) > 1 {
 			k = args[1].Atom
 		}
 		key := args[0].Atom + "#" + k
+		if h == "callarg" {
+			// (callarg "callee" k i): the i-th argument (receiver first) the k-th call of callee was made with; pointer arguments
+			// are dereferenced in the state the clause is evaluated in
+			key = "arg:" + key
+		}
 		res, ok := e.st.calls[key]
-		if !ok && k == "0" {
+		if !ok && k == "0" && h != "callarg" {
 			// the call may have moved into a helper that is verified inlined: if exactly one call of that callee was made inside
 			// helpers on this path, that is the one
 			n := 0
@@ -297,7 +302,11 @@ func (r *Run) eval(e *Env, x *SX) *Val {
 		}
 		if !ok || i >= len(res) {
 			// the call did not happen on this path: an unconstrained value of the right type (guard with (called ...))
-			if t := r.callResultType(args[0].Atom, k, i); t != nil {
+			ti := i
+			if h == "callarg" {
+				ti = -i - 1
+			}
+			if t := r.callResultType(args[0].Atom, k, ti); t != nil {
 				return r.freshVal(e.st.clone(), t, "nocall")
 			}
 			return opaque(r.fresh("nocall", "Int"))
@@ -549,6 +558,19 @@ func (r *Run) callResultType(name, k string, i int) types.Type {
 			cn := strings.TrimPrefix(r.eng.calleeName(&c.Call), "dyn:")
 			if cn != name || fmt.Sprint(r.eng.callOrdinal(in, r.eng.calleeName(&c.Call))) != k {
 				continue
+			}
+			if i < 0 { // (callarg ...): type of argument -i-1, receiver of an interface call first
+				j := -i - 1
+				if c.Call.IsInvoke() {
+					if j == 0 {
+						return c.Call.Value.Type()
+					}
+					j--
+				}
+				if j < len(c.Call.Args) {
+					return c.Call.Args[j].Type()
+				}
+				return nil
 			}
 			res := c.Call.Signature().Results()
 			if i < res.Len() {
